@@ -78,6 +78,15 @@ class StepBudgetExceeded(Exception):
 # ---------------------------------------------------------------------------------------
 import signal as _signal
 
+def _die_with_parent():
+    """Worker initialiser: a worker whose check process is killed (a timeout of the caller) must not live on."""
+    try:
+        import ctypes
+        ctypes.CDLL("libc.so.6", use_errno=True).prctl(1, int(_signal.SIGKILL))       # PR_SET_PDEATHSIG
+    except Exception:                                            # noqa -- not Linux: nothing to do
+        pass
+
+
 CASE_HORIZON_SECONDS = float(os.environ.get("VERIF_CASE_HORIZON", "300"))
 _WALL_HITS = [0]
 
@@ -474,7 +483,7 @@ class Ctx(object):
     # -- enumerators ---------------------------------------------------------------------
     def _pool(self):
         ctx = multiprocessing.get_context("fork")
-        return ctx.Pool(NPROC)
+        return ctx.Pool(NPROC, initializer=_die_with_parent)
 
     def product(self, clause, shards, gen, runner=None, parallel=True):
         """Exhaustively run ``runner`` on every case produced by ``gen(shard)`` for every shard."""
